@@ -3,7 +3,7 @@ import ast
 
 from sa import astq
 from sa.astq import norm_text
-from sa.idioms import guarded, reach_under, attr_truth, combine
+from sa.idioms import guarded, reach_under, attr_truth, combine, member_test
 from sa.project import dotted, walk_local, AnalysisError
 
 EXPLANATION = (
@@ -135,9 +135,7 @@ def r2(run, ctx):
     c1 = ctx.cfg(s1)
     add = [n for n in ctx.live_nodes(s1) if any(astq.call_last(c) == 'add_handler' for c in n.calls())]
     for n in add:
-        run.check('R2', guarded(c1, n, lambda e: (True if isinstance(e, ast.Compare) and
-                                                  norm_text(e.comparators[0]) == 'self._active' and
-                                                  isinstance(e.ops[0], ast.NotIn) else None), True),
+        run.check('R2', guarded(c1, n, lambda e: member_test(e, 'fd', 'self._active'), False),
                   'a descriptor is attached at most once', s1, n.ast)
 
 
